@@ -357,3 +357,293 @@ Lemma dup_mp_diverge :
   events_of_bytes Rfc pdu_dup_mp = None
   /\ events_of_bytes Code pdu_dup_mp = Some [EvW F6U (MkPfx 8 [32])].
 Proof. split; vm_compute; reflexivity. Qed.
+
+(* ---------- soundness: what the decoder accepts is what the encoder writes ---------- *)
+Lemma bytes_ok_cons a r : bytes_ok (a :: r) = true -> a < 256 /\ bytes_ok r = true.
+Proof. unfold bytes_ok, byte_ok. cbn [forallb]. rewrite andb_true_iff, N.ltb_lt. tauto. Qed.
+
+Lemma bytes_ok_app_inv x y : bytes_ok (x ++ y) = true -> bytes_ok x = true /\ bytes_ok y = true.
+Proof. rewrite bytes_ok_app, andb_true_iff. tauto. Qed.
+
+Lemma dec_pfxs_sound maxlen fuel : forall b ps,
+  dec_pfxs Code maxlen fuel b = Some ps -> enc_pfxs ps = b.
+Proof.
+  induction fuel as [|fuel IH]; intros b ps; destruct b as [|len rest]; cbn [dec_pfxs]; try discriminate;
+    try (intros [= <-]; reflexivity).
+  destruct (len <=? maxlen); [|discriminate].
+  destruct (take_n (nbytes len) rest) as [[bs rest']|] eqn:Et; [|discriminate].
+  destruct (trailing_ok len bs) eqn:Eo; cbn [strict andb negb]; [|discriminate].
+  destruct (dec_pfxs Code maxlen fuel rest') as [ps'|] eqn:Er; [|discriminate].
+  intros [= <-]. apply take_n_inv in Et as [-> _]. apply IH in Er.
+  rewrite enc_pfxs_cons. cbn [p_len p_bytes]. rewrite mask_last_id, Er by exact Eo. reflexivity.
+Qed.
+
+Lemma fam_of_inv afi safi f : fam_of afi safi = Some f -> fam_afi f = afi /\ fam_safi f = safi.
+Proof.
+  unfold fam_of. destruct afi as [|[[]|[]|]]; try discriminate;
+    destruct safi as [|[[]|[]|]]; try discriminate; intros [= <-]; split; reflexivity.
+Qed.
+
+Lemma dec_mpnlri_sound afi safi body n : dec_mpnlri Code afi safi body = Some n ->
+  enc_mpnlri n = body /\ mp_afi n = afi /\ mp_safi n = safi.
+Proof.
+  unfold dec_mpnlri. destruct (fam_of afi safi) as [f|] eqn:Ef.
+  - destruct (dec_pfxs Code (fam_maxlen f) (length body) body) as [ps|] eqn:Ed; [|discriminate].
+    intros [= <-]. apply dec_pfxs_sound in Ed. apply fam_of_inv in Ef. cbn. tauto.
+  - intros [= <-]. cbn. tauto.
+Qed.
+
+Lemma dec_attr_val_sound fl ty v a : bytes_ok v = true ->
+  dec_attr_val Code fl ty v = Some a -> a_flags a = fl /\ a_type a = ty /\ a_value a = v.
+Proof.
+  intros Hb. unfold dec_attr_val. destruct (ty =? 14) eqn:E14; [apply N.eqb_eq in E14; subst ty|].
+  - destruct v as [|ah [|al [|sf [|nhl r]]]]; try discriminate.
+    destruct (take_n nhl r) as [[nh [|rsv body]]|] eqn:Et; try discriminate.
+    destruct (dec_mpnlri Code (u16 ah al) sf body) as [n|] eqn:Ed; [|discriminate].
+    intros [= <-]. apply take_n_inv in Et as [-> <-]. apply dec_mpnlri_sound in Ed as (He & Ha & Hs).
+    apply bytes_ok_cons in Hb as [_ Hb]. apply bytes_ok_cons in Hb as [Hal _].
+    cbn [a_flags a_type a_value]. unfold enc_afisafi. rewrite He, Ha, Hs, u16_inv by exact Hal.
+    repeat split; reflexivity.
+  - destruct (ty =? 15) eqn:E15; [apply N.eqb_eq in E15; subst ty|intros [= <-]; repeat split; reflexivity].
+    destruct v as [|ah [|al [|sf body]]]; try discriminate.
+    destruct (dec_mpnlri Code (u16 ah al) sf body) as [n|] eqn:Ed; [|discriminate].
+    intros [= <-]. apply dec_mpnlri_sound in Ed as (He & Ha & Hs).
+    apply bytes_ok_cons in Hb as [_ Hb]. apply bytes_ok_cons in Hb as [Hal _].
+    cbn [a_flags a_type a_value]. unfold enc_afisafi. rewrite He, Ha, Hs, u16_inv by exact Hal.
+    repeat split; reflexivity.
+Qed.
+
+Lemma dec_attrs_sound fuel : forall b l, bytes_ok b = true ->
+  dec_attrs Code fuel b = Some l -> enc_attrs l = b.
+Proof.
+  induction fuel as [|fuel IH]; intros b l Hb; destruct b as [|fl [|ty rest]]; cbn [dec_attrs]; try discriminate;
+    try (intros [= <-]; reflexivity).
+  apply bytes_ok_cons in Hb as [_ Hb]. apply bytes_ok_cons in Hb as [_ Hb].
+  destruct (ext_len fl) eqn:Ex.
+  - destruct rest as [|hi [|lo r]]; try discriminate.
+    destruct (take_n (u16 hi lo) r) as [[v rest']|] eqn:Et; [|discriminate].
+    destruct (dec_attr_val Code fl ty v) as [a|] eqn:Ea; [|discriminate].
+    destruct (dec_attrs Code fuel rest') as [l'|] eqn:El; [|discriminate].
+    intros [= <-]. apply take_n_inv in Et as [-> Hlen].
+    apply bytes_ok_cons in Hb as [_ Hb]. apply bytes_ok_cons in Hb as [Hlo Hb].
+    apply bytes_ok_app_inv in Hb as [Hv Hr].
+    apply dec_attr_val_sound in Ea as (Hf & Ht & Hval); [|exact Hv]. apply IH in El; [|exact Hr].
+    rewrite enc_attrs_cons, El. unfold enc_attr. rewrite Hf, Ht, Hval, Ex, Hlen, u16_inv by exact Hlo.
+    reflexivity.
+  - destruct rest as [|n r]; try discriminate.
+    destruct (take_n n r) as [[v rest']|] eqn:Et; [|discriminate].
+    destruct (dec_attr_val Code fl ty v) as [a|] eqn:Ea; [|discriminate].
+    destruct (dec_attrs Code fuel rest') as [l'|] eqn:El; [|discriminate].
+    intros [= <-]. apply take_n_inv in Et as [-> Hlen].
+    apply bytes_ok_cons in Hb as [_ Hb]. apply bytes_ok_app_inv in Hb as [Hv Hr].
+    apply dec_attr_val_sound in Ea as (Hf & Ht & Hval); [|exact Hv]. apply IH in El; [|exact Hr].
+    rewrite enc_attrs_cons, El. unfold enc_attr. rewrite Hf, Ht, Hval, Ex, Hlen. reflexivity.
+Qed.
+
+Lemma dec_body_sound body u : bytes_ok body = true -> dec_body Code body = Some u -> enc_body u = body.
+Proof.
+  intros Hb. unfold dec_body. destruct body as [|wh [|wl r1]]; try discriminate.
+  destruct (take_n (u16 wh wl) r1) as [[w [|ah [|al r3]]]|] eqn:Ew; try discriminate.
+  destruct (take_n (u16 ah al) r3) as [[a n]|] eqn:Ea; [|discriminate].
+  destruct (dec_pfxs Code 32 (length w) w) as [wd|] eqn:Ed1; [|discriminate].
+  destruct (dec_attrs Code (length a) a) as [attrs|] eqn:Ed2; [|discriminate].
+  destruct (dec_pfxs Code 32 (length n) n) as [nlri|] eqn:Ed3; [|discriminate].
+  cbn [strict orb]. intros [= <-].
+  apply take_n_inv in Ew as [-> Hlw]. apply take_n_inv in Ea as [-> Hla].
+  apply bytes_ok_cons in Hb as [_ Hb]. apply bytes_ok_cons in Hb as [Hwl Hb].
+  apply bytes_ok_app_inv in Hb as [_ Hb].
+  apply bytes_ok_cons in Hb as [_ Hb]. apply bytes_ok_cons in Hb as [Hal Hb].
+  apply bytes_ok_app_inv in Hb as [Hba _].
+  apply dec_pfxs_sound in Ed1, Ed3. apply dec_attrs_sound in Ed2; [|exact Hba].
+  unfold enc_body. cbn [u_wd u_attrs u_nlri]. rewrite Ed1, Ed2, Ed3, Hlw, Hla, !u16_inv by assumption.
+  reflexivity.
+Qed.
+
+Lemma list_eqb_eq x : forall y, list_eqb x y = true -> x = y.
+Proof.
+  unfold list_eqb. induction x as [|a x IH]; intros [|b y]; cbn [length combine forallb Nat.eqb fst snd];
+    try discriminate; try reflexivity.
+  rewrite !andb_true_iff, N.eqb_eq. intros (Hl & -> & Hf). f_equal. apply IH.
+  rewrite Hl, Hf. reflexivity.
+Qed.
+
+Lemma decode_sound b u : decode Code b = Some u -> encode u = b.
+Proof.
+  unfold decode. destruct (take_n 16 b) as [[mk [|lh [|ll [|ty body]]]]|] eqn:Et; try discriminate.
+  destruct (list_eqb mk marker) eqn:Em; [|discriminate].
+  destruct (ty =? 2) eqn:Ety; [|discriminate].
+  destruct (u16 lh ll =? 19 + lenN body) eqn:El; [|discriminate].
+  destruct (bytes_ok b) eqn:Eb; [|discriminate]. cbn [andb].
+  apply take_n_inv in Et as [-> _]. apply list_eqb_eq in Em. subst mk.
+  apply N.eqb_eq in Ety, El. subst ty.
+  apply bytes_ok_app_inv in Eb as [_ Eb].
+  apply bytes_ok_cons in Eb as [_ Eb]. apply bytes_ok_cons in Eb as [Hll Eb]. apply bytes_ok_cons in Eb as [_ Eb].
+  intros Hd. apply dec_body_sound in Hd; [|exact Eb].
+  unfold encode. rewrite Hd, <- El, u16_inv by exact Hll. reflexivity.
+Qed.
+
+(* ---------- ... and it is well-formed ---------- *)
+Lemma tail_mod_pos len : 0 < tail_mod len.
+Proof. unfold tail_mod. apply N.neq_0_lt_0, N.pow_nonzero. lia. Qed.
+
+Lemma mask_byte_props len b : mask_byte len b <= b /\ mask_byte len b mod tail_mod len = 0.
+Proof.
+  unfold mask_byte. pose proof (tail_mod_pos len) as Hp. generalize dependent (tail_mod len). intros t Hp.
+  assert (Ht : t <> 0) by lia.
+  pose proof (N.div_mod b t Ht) as Hd. pose proof (N.mod_lt b t Ht) as Hl.
+  split; [apply N.le_sub_l|].
+  replace (b - b mod t) with (b / t * t).
+  - apply N.mod_mul. exact Ht.
+  - rewrite N.mul_comm. set (q := t * (b / t)) in *. lia.
+Qed.
+
+Lemma mask_last_length len bs : length (mask_last len bs) = length bs.
+Proof.
+  induction bs as [|b [|b' r] IH]; try reflexivity.
+  change (mask_last len (b :: b' :: r)) with (b :: mask_last len (b' :: r)).
+  cbn [length] in *. rewrite IH. reflexivity.
+Qed.
+
+Lemma mask_last_bytes_ok len bs : bytes_ok bs = true -> bytes_ok (mask_last len bs) = true.
+Proof.
+  induction bs as [|b [|b' r] IH]; intros H; try reflexivity.
+  - apply bytes_ok_cons in H as [Hb _]. pose proof (mask_byte_props len b) as [Hm _].
+    unfold bytes_ok, byte_ok. cbn [mask_last forallb]. rewrite andb_true_r. apply N.ltb_lt. lia.
+  - change (mask_last len (b :: b' :: r)) with (b :: mask_last len (b' :: r)).
+    apply bytes_ok_cons in H as [Hb Hr]. change (bytes_ok (b :: ?x)) with (byte_ok b && bytes_ok x).
+    rewrite IH by exact Hr. unfold byte_ok. apply N.ltb_lt in Hb. rewrite Hb. reflexivity.
+Qed.
+
+Lemma mask_last_trailing_ok len bs : trailing_ok len (mask_last len bs) = true.
+Proof.
+  unfold trailing_ok. induction bs as [|b [|b' r] IH].
+  - cbn [mask_last last]. apply N.eqb_eq. apply N.mod_0_l. pose proof (tail_mod_pos len). lia.
+  - cbn [mask_last last]. apply N.eqb_eq. apply mask_byte_props.
+  - change (mask_last len (b :: b' :: r)) with (b :: mask_last len (b' :: r)).
+    pose proof (mask_last_length len (b' :: r)) as Hl.
+    destruct (mask_last len (b' :: r)) as [|x y] eqn:E; [discriminate Hl|]. exact IH.
+Qed.
+
+Lemma dec_pfxs_wf m maxlen fuel : forall b ps, bytes_ok b = true ->
+  dec_pfxs m maxlen fuel b = Some ps -> forallb (pfx_wf maxlen) ps = true.
+Proof.
+  induction fuel as [|fuel IH]; intros b ps Hb; destruct b as [|len rest]; cbn [dec_pfxs]; try discriminate;
+    try (intros [= <-]; reflexivity).
+  destruct (len <=? maxlen) eqn:El; [|discriminate].
+  destruct (take_n (nbytes len) rest) as [[bs rest']|] eqn:Et; [|discriminate].
+  destruct (strict m && negb (trailing_ok len bs)); [discriminate|].
+  destruct (dec_pfxs m maxlen fuel rest') as [ps'|] eqn:Er; [|discriminate].
+  intros [= <-]. apply take_n_inv in Et as [-> Hn].
+  apply bytes_ok_cons in Hb as [_ Hb]. apply bytes_ok_app_inv in Hb as [Hbs Hr].
+  cbn [forallb]. rewrite (IH _ _ Hr Er), andb_true_r.
+  unfold pfx_wf. cbn [p_len p_bytes]. rewrite El, mask_last_bytes_ok, mask_last_trailing_ok by exact Hbs.
+  unfold lenN in *. rewrite mask_last_length, Hn, N.eqb_refl. reflexivity.
+Qed.
+
+Lemma u16_lt hi lo : hi < 256 -> lo < 256 -> u16 hi lo < 65536.
+Proof. unfold u16. lia. Qed.
+
+Lemma fam_of_none_wf afi safi : fam_of afi safi = None ->
+  match fam_of afi safi with None => true | Some _ => false end = true.
+Proof. intros ->. reflexivity. Qed.
+
+Lemma dec_mpnlri_wf afi safi body n : afi < 65536 -> safi < 256 -> bytes_ok body = true ->
+  dec_mpnlri Code afi safi body = Some n -> mpnlri_wf n = true.
+Proof.
+  intros Ha Hs Hb. unfold dec_mpnlri. destruct (fam_of afi safi) as [f|] eqn:Ef.
+  - destruct (dec_pfxs Code (fam_maxlen f) (length body) body) as [ps|] eqn:Ed; [|discriminate].
+    intros [= <-]. cbn [mpnlri_wf]. eapply dec_pfxs_wf; eassumption.
+  - intros [= <-]. cbn [mpnlri_wf]. rewrite Ef, Hb. apply N.ltb_lt in Ha, Hs. rewrite Ha, Hs. reflexivity.
+Qed.
+
+Lemma dec_attr_val_wf fl ty v a : fl < 256 -> ty < 256 -> bytes_ok v = true ->
+  lenN v < (if ext_len fl then 65536 else 256) ->
+  dec_attr_val Code fl ty v = Some a -> attr_wf a = true.
+Proof.
+  intros Hfl Hty Hb Hlen Hd. pose proof (dec_attr_val_sound fl ty v a Hb Hd) as (Hf & Ht & Hv).
+  unfold attr_wf. rewrite Hf, Ht, Hv, Hb. unfold byte_ok.
+  apply N.ltb_lt in Hfl, Hty, Hlen. rewrite Hfl, Hty, Hlen. cbn [andb].
+  unfold dec_attr_val in Hd. destruct (ty =? 14) eqn:E14.
+  - destruct v as [|ah [|al [|sf [|nhl r]]]]; try discriminate.
+    destruct (take_n nhl r) as [[nh [|rsv body]]|] eqn:Et; try discriminate.
+    destruct (dec_mpnlri Code (u16 ah al) sf body) as [n|] eqn:Ed; [|discriminate].
+    injection Hd as <-. apply take_n_inv in Et as [-> Hn].
+    apply bytes_ok_cons in Hb as [Hah Hb]. apply bytes_ok_cons in Hb as [Hal Hb].
+    apply bytes_ok_cons in Hb as [Hsf Hb]. apply bytes_ok_cons in Hb as [Hnhl Hb].
+    apply bytes_ok_app_inv in Hb as [_ Hb]. apply bytes_ok_cons in Hb as [_ Hb].
+    rewrite Hn. apply N.ltb_lt in Hnhl. rewrite Hnhl. cbn [andb].
+    exact (dec_mpnlri_wf (u16 ah al) sf body n (u16_lt _ _ Hah Hal) Hsf Hb Ed).
+  - destruct (ty =? 15) eqn:E15.
+    + destruct v as [|ah [|al [|sf body]]]; try discriminate.
+      destruct (dec_mpnlri Code (u16 ah al) sf body) as [n|] eqn:Ed; [|discriminate].
+      injection Hd as <-.
+      apply bytes_ok_cons in Hb as [Hah Hb]. apply bytes_ok_cons in Hb as [Hal Hb].
+      apply bytes_ok_cons in Hb as [Hsf Hb].
+      exact (dec_mpnlri_wf (u16 ah al) sf body n (u16_lt _ _ Hah Hal) Hsf Hb Ed).
+    + injection Hd as <-. rewrite E14, E15. reflexivity.
+Qed.
+
+Lemma dec_attrs_wf fuel : forall b l, bytes_ok b = true ->
+  dec_attrs Code fuel b = Some l -> forallb attr_wf l = true.
+Proof.
+  induction fuel as [|fuel IH]; intros b l Hb; destruct b as [|fl [|ty rest]]; cbn [dec_attrs]; try discriminate;
+    try (intros [= <-]; reflexivity).
+  apply bytes_ok_cons in Hb as [Hfl Hb]. apply bytes_ok_cons in Hb as [Hty Hb].
+  destruct (ext_len fl) eqn:Ex.
+  - destruct rest as [|hi [|lo r]]; try discriminate.
+    destruct (take_n (u16 hi lo) r) as [[v rest']|] eqn:Et; [|discriminate].
+    destruct (dec_attr_val Code fl ty v) as [a|] eqn:Ea; [|discriminate].
+    destruct (dec_attrs Code fuel rest') as [l'|] eqn:El; [|discriminate].
+    intros [= <-]. apply take_n_inv in Et as [-> Hlen].
+    apply bytes_ok_cons in Hb as [Hhi Hb]. apply bytes_ok_cons in Hb as [Hlo Hb].
+    apply bytes_ok_app_inv in Hb as [Hv Hr].
+    cbn [forallb]. rewrite (IH _ _ Hr El), andb_true_r.
+    apply (dec_attr_val_wf fl ty v a Hfl Hty Hv); [|exact Ea]. rewrite Ex, Hlen. apply u16_lt; assumption.
+  - destruct rest as [|n r]; try discriminate.
+    destruct (take_n n r) as [[v rest']|] eqn:Et; [|discriminate].
+    destruct (dec_attr_val Code fl ty v) as [a|] eqn:Ea; [|discriminate].
+    destruct (dec_attrs Code fuel rest') as [l'|] eqn:El; [|discriminate].
+    intros [= <-]. apply take_n_inv in Et as [-> Hlen].
+    apply bytes_ok_cons in Hb as [Hn Hb]. apply bytes_ok_app_inv in Hb as [Hv Hr].
+    cbn [forallb]. rewrite (IH _ _ Hr El), andb_true_r.
+    apply (dec_attr_val_wf fl ty v a Hfl Hty Hv); [|exact Ea]. rewrite Ex, Hlen. exact Hn.
+Qed.
+
+Lemma decode_wf b u : decode Code b = Some u -> mp_unique (u_attrs u) = true -> wf u = true.
+Proof.
+  intros Hd Hu. pose proof (decode_sound b u Hd) as Hs. revert Hd.
+  unfold decode. destruct (take_n 16 b) as [[mk [|lh [|ll [|ty body]]]]|] eqn:Et; try discriminate.
+  destruct (list_eqb mk marker) eqn:Em; [|discriminate].
+  destruct (ty =? 2) eqn:Ety; [|discriminate].
+  destruct (u16 lh ll =? 19 + lenN body) eqn:El; [|discriminate].
+  destruct (bytes_ok b) eqn:Eb; [|discriminate]. cbn [andb].
+  apply take_n_inv in Et as [-> _]. apply N.eqb_eq in El.
+  apply bytes_ok_app_inv in Eb as [_ Eb].
+  apply bytes_ok_cons in Eb as [Hlh Eb]. apply bytes_ok_cons in Eb as [Hll Eb]. apply bytes_ok_cons in Eb as [_ Eb].
+  intros Hd. pose proof (dec_body_sound body u Eb Hd) as Hbody. revert Hd.
+  unfold dec_body. destruct body as [|wh [|wl r1]]; try discriminate.
+  destruct (take_n (u16 wh wl) r1) as [[w [|ah [|al r3]]]|] eqn:Ew; try discriminate.
+  destruct (take_n (u16 ah al) r3) as [[a n]|] eqn:Ea; [|discriminate].
+  destruct (dec_pfxs Code 32 (length w) w) as [wd|] eqn:Ed1; [|discriminate].
+  destruct (dec_attrs Code (length a) a) as [attrs|] eqn:Ed2; [|discriminate].
+  destruct (dec_pfxs Code 32 (length n) n) as [nlri|] eqn:Ed3; [|discriminate].
+  cbn [strict orb]. intros [= <-]. cbn [u_attrs] in Hu.
+  apply take_n_inv in Ew as [-> Hlw]. apply take_n_inv in Ea as [-> Hla].
+  apply bytes_ok_cons in Eb as [Hwh Eb]. apply bytes_ok_cons in Eb as [Hwl Eb].
+  apply bytes_ok_app_inv in Eb as [Hbw Eb].
+  apply bytes_ok_cons in Eb as [Hah Eb]. apply bytes_ok_cons in Eb as [Hal Eb].
+  apply bytes_ok_app_inv in Eb as [Hba Hbn].
+  unfold wf. cbn [u_wd u_attrs u_nlri].
+  rewrite (dec_pfxs_wf _ _ _ _ _ Hbw Ed1), (dec_attrs_wf _ _ _ Hba Ed2), (dec_pfxs_wf _ _ _ _ _ Hbn Ed3), Hu.
+  rewrite (dec_pfxs_sound _ _ _ _ Ed1), (dec_attrs_sound _ _ _ Hba Ed2), Hbody, Hlw, Hla, <- El.
+  cbn [andb]. rewrite !andb_true_iff, !N.ltb_lt. repeat split; apply u16_lt; assumption.
+Qed.
+
+(* the decoder (implementation's mode) accepts exactly the encodings of well-formed UPDATEs *)
+Lemma decode_iff b u :
+  (decode Code b = Some u /\ mp_unique (u_attrs u) = true) <-> (wf u = true /\ b = encode u).
+Proof.
+  split.
+  - intros [Hd Hu]. split; [eapply decode_wf; eassumption|symmetry; apply decode_sound; exact Hd].
+  - intros [Hw ->]. split; [apply roundtrip; exact Hw|apply wf_inv in Hw; tauto].
+Qed.
